@@ -80,6 +80,8 @@ def run(ctx):
         ctx.count("jobs_%s" % s["jobs"])
         ctx.count("backend_%s" % s.get("backend"))
     base.run_twin(ctx, "njobs_vs_one", scns)
+    large = [TW.gen_c05_large(ctx.seed, i) for i in range(ctx.scale(6, 60))]
+    base.run_twin(ctx, "njobs_vs_one", large, shrink=False)
     more = [TW.gen_c05(ctx.seed, 10000 + i) for i in range(ctx.scale(200, 2000))]
     base.run_twin(ctx, "chunk_vs_rows", more)
     base.run_twin(ctx, "fit_task_orders", more)
